@@ -6,7 +6,9 @@ CFG = {
                   "transition once `done` is closed (so every execution is finite and every Close returns), and the state after Close "
                   "(loop, receive loops, gather cycle gone; blocked calls return the closed error; Closed last; no task ever runs again). "
                   "Tests fix one blocking point and one schedule; the theorems quantify over all of them.",
-    "level_note": "Trusted: Lean kernel; the hand-written model CloseSys (statement-for-statement, file:line beside every transition) and "
+    "level_note": "T tie for the order of effects of the task loop's onClose function (Closed is set last), candidateBase.abortIO "
+                  "and close (C08_code_onClose, C08_code_candidate_close: regenerated in effect mode on every run). "
+                  "Trusted: Lean kernel; the hand-written model CloseSys (statement-for-statement, file:line beside every transition) and "
                   "its three modelling facts R1 (Go select parks only when no case is ready), M1, M2; Go scheduler fairness; "
                   "testing/synctest semantics (virtual clock, durable blocking, bubble-exit census); mutex deadlocks are visible only "
                   "through the wall-clock watchdog.  Tie A: real agents under synctest, Close injected at every position; the driver "
@@ -29,7 +31,7 @@ CFG = {
             "x 8 flavour-stage pairs. Last op `coverage`: the run must have reached Connected agents, a parked Conn.Write, a full TCP queue "
             "and a stalled TURN connection at least once. "
             "Evaluation = one operation of a session (real agents, virtual time); non-trivial = every line (each carries events and a digest).",
-    "translated": [],
+    "translated": ["newAgentWithConfig (onClose function of the task loop)", "candidateBase.abortIO", "candidateBase.close"],
     "trusted_base": ["model CloseSys written by hand against agent.go / taskloop.go / candidate_base.go / agent_handlers.go / transport.go (no generated tie; "
                      "the behavioural tie is the replay of real executions on the model)",
                      "Go runtime: fair scheduler; select semantics R1; testing/synctest (go1.26.8)"],
